@@ -9,6 +9,7 @@ mod c09;
 mod c12;
 mod c13;
 mod c14;
+mod c16;
 mod c19;
 mod c20;
 mod evprog;
@@ -44,6 +45,7 @@ fn main() {
             "c12" => c12::replay(case),
             "c13" => c13::replay(case),
             "c14" => c14::replay(case),
+            "c16" => c16::replay(case),
             "c19" => c19::replay(case),
             "c20" => c20::replay(case),
             other => {
@@ -67,6 +69,7 @@ fn main() {
         "c12" => c12::cmd(&args),
         "c13" => c13::cmd(&args),
         "c14" => c14::cmd(&args),
+        "c16" => c16::cmd(&args),
         "c19" => c19::cmd(&args),
         "c20" => c20::cmd(&args),
         other => {
